@@ -87,7 +87,16 @@ IsScalarCp(c) == (c >= 1 /\ c <= 55295) \/ (c >= 57344 /\ c <= 1114111)      \* 
 RECURSIVE TypeOf(_)
 TB(x) == [b |-> x]
 BaseOf(t) == IF "b" \in DOMAIN t THEN t.b ELSE ""
-TypeOf(v) == CASE v.k \in {"Z", "K", "B", "W", "C", "T"} -> TB(v.k)
+\* a value of a type definition (Wir definieren eine Nummer als eine Zahl) is the value of the underlying type tagged with the definition's name:
+\* the two are different types (only `als` converts between them), and a Variable remembers which one it holds
+IsTagged(v) == "d" \in DOMAIN v
+Tag(v, d) == [x \in DOMAIN v \cup {"d"} |-> IF x = "d" THEN d ELSE v[x]]
+Untag(v) == [x \in DOMAIN v \ {"d"} |-> v[x]]
+IsDefT(t) == "d" \in DOMAIN t
+\* does a value of (run-time) type tv have the declared type `to`?  definitions are compared by name
+TEq(tv, to) == IF IsDefT(to) THEN IsDefT(tv) /\ tv.d = to.d ELSE ~IsDefT(tv) /\ tv = to
+TypeOf(v) == CASE IsTagged(v) -> [d |-> v.d]
+               [] v.k \in {"Z", "K", "B", "W", "C", "T"} -> TB(v.k)
                [] v.k = "L" -> [l |-> v.et]
                [] v.k = "S" -> [s |-> v.n]
                [] v.k = "V" -> TB("V")
